@@ -102,6 +102,16 @@ func init() {
 		Rule: "as scenarios, with Concurrency 17-33 (above the CPU count of the machine): the script opens with 14 to limit-1 single parking calls, then 3-12 ordinary steps follow: with fewer handlers running than the limit a later request must begin although that many earlier calls are still running; non-trivial = at least 16 handlers were parked at one quiescent point; distinct = hash of the scenario"})
 }
 
+// deadlines: the safety half when request contexts can end on their own
+// (ServerOptions.NewContext with a deadline): a notification handler that keeps
+// working past its deadline is still a handler that has not returned.
+func genDeadlines(t *rapid.T) sim.Scenario { return gen.DeadlineScenario(t) }
+
+func init() {
+	parts = append(parts, engine.Part[sim.Scenario]{Name: "deadlines", Run: runStop, Gen: genDeadlines,
+		Rule: "the structured deadline scripts (request contexts with a 50ms deadline, slots filled with parked calls, notifications and calls waiting for a slot or behind the barrier while the fake clock passes their deadline, handlers that ignore the end of their context, fresh requests): on the handler log every notification that ran had returned before any request of a later inbound record was invoked; non-trivial = at least two notification handlers ran; distinct = hash of the scenario"})
+}
+
 // cancelrace: "(up to the concurrency limit)" - the limit must still be the
 // configured one after calls were cancelled right in front of or right behind
 // the slot semaphore.
